@@ -233,6 +233,12 @@ class PathAnalysis:
                     return env, user
             if lv[0] == "r":
                 call = calls.get(lv[1])
+                if call is None:
+                    cl = strip(l)
+                    if kind(cl) == "asg":
+                        cl = strip(cl[3])
+                    if kind(cl) == "call":
+                        call = cl
                 if call is not None:
                     out = outcome_of(call, op, n, self.prog)
                     if out:
